@@ -203,7 +203,7 @@ def check_instance(x, cls_name, mode, replay, stats, emitted, agg=None):
             y, left = IC.dec(factory, b, v)
         except Exception as e:
             if strict:
-                findings.append(Finding("c01:decode-rejects-own-encoding:%s" % wcls,
+                findings.append(Finding("c01:decode-rejects-own-encoding:%s:%s" % (wcls, type(e).__name__),
                                         "%s encoded under KMIP %s is rejected by its own decoder: %s: %s"
                                         % (cls_name, IC.vname(v), type(e).__name__, str(e)[:120]),
                                         dict(replay, version=IC.vname(v), hex=b.hex())))
@@ -245,6 +245,11 @@ def check_instance(x, cls_name, mode, replay, stats, emitted, agg=None):
             else:
                 stats["roundtrips"] = stats.get("roundtrips", 0) + 1
         except Exception as e:
+            if mode != "strict" and type(e).__name__ in ("InvalidField", "ValueError", "TypeError", "AttributeError"):
+                # the reader accepted an incomplete structure the writer insists on completing (reader more
+                # lenient than writer on a value that was incomplete / inconsistent to begin with)
+                stats["lenient_reader_incomplete_value"] = stats.get("lenient_reader_incomplete_value", 0) + 1
+                continue
             findings.append(Finding("c01:reencode-raises:%s" % wcls,
                                     "%s under KMIP %s: the decoded value cannot be encoded again (%s)"
                                     % (cls_name, IC.vname(v), type(e).__name__),
@@ -357,6 +362,8 @@ class StructRun(object):
                 m = rec.get(key)
                 if m is None:
                     continue
+                # the constructed objects themselves (not only what survives encode+decode) are examples
+                self.lib.add_instance(copy.deepcopy(m), v, "engine-built-" + key)
                 try:
                     b = IC.enc(copy.deepcopy(m), v)
                 except Exception as e:
@@ -387,6 +394,17 @@ class StructRun(object):
         seen = set()
         order = list(range(len(exs)))
         self.rng.shuffle(order)
+        # distinct presence masks first (round robin), so that rarely populated fields are exercised
+        by_mask = {}
+        for i in order:
+            by_mask.setdefault(deep_mask(exs[i][0]), []).append(i)
+        order = []
+        groups = [by_mask[k] for k in sorted(by_mask)]
+        self.rng.shuffle(groups)
+        while any(groups):
+            for gq in groups:
+                if gq:
+                    order.append(gq.pop(0))
         for i in order:
             o, v, origin = exs[i]
             try:
@@ -507,8 +525,51 @@ class StructRun(object):
         return pool
 
     # -- run ------------------------------------------------------------------------------------------
+    def check_traffic(self):
+        """the messages the request builder and the engine CONSTRUCTED (not only the ones that decode)"""
+        st = {}
+        aggs = {"RequestMessage": {}, "ResponseMessage": {}}
+        n = 0
+        seen = set()
+        for rec in self.traffic:
+            for key, name in (("request", "RequestMessage"), ("response", "ResponseMessage")):
+                m = rec.get(key)
+                if m is None or time.time() - self.t0 > self.budget_s:
+                    continue
+                try:
+                    sig = IC.enc(copy.deepcopy(m), enums.KMIPVersion.KMIP_1_4)
+                except Exception:
+                    sig = None
+                if sig in seen:
+                    continue
+                seen.add(sig)
+                before = len(self.emitted)
+                replay = {"kind": "traffic", "seed": self.seed, "index": self.traffic.index(rec), "which": key,
+                          "json": rec.get("json")}
+                # requests come from a generator that also builds deliberately inconsistent ones (object type vs
+                # object); responses are built by the engine itself
+                fs = check_instance(copy.deepcopy(m), name, "strict" if key == "response" else "incomplete", replay,
+                                    st, self.emitted, aggs[name])
+                self.findings += fs
+                self.evaluations += 1
+                n += 1
+                for (c, vn, b) in self.emitted[before:]:
+                    self.distinct.add((name, vn, "traffic", len(b) % 8, len(b) // 64))
+        for name, agg in aggs.items():
+            for f, a in sorted(agg.items()):
+                if a["dropped"] and not a["preserved"] and a["all6"]:
+                    self.findings.append(Finding(
+                        "c01:field-dropped:%s.%s" % (name, f),
+                        "%s.%s: the value the engine / request builder constructed is not reproduced by "
+                        "decode(encode(x)) under ANY version (%s)" % (name, f, ", ".join(a["all6"]["paths"])),
+                        a["all6"]["replay"]))
+        self.stats["traffic_messages_checked"] = n
+        for k, v in st.items():
+            self.stats["traffic:" + k] = v
+
     def run(self):
         self.collect_seeds()
+        self.check_traffic()
         keys = sorted(self.lib.classes)
         for key in keys:
             cls, own = self.lib.classes[key]
@@ -552,11 +613,149 @@ class StructRun(object):
         return self
 
 
+def deep_mask(o, depth=0):
+    """presence mask of the fields of o and of its direct structure children"""
+    m = []
+    for k, v in IC.state_items(o):
+        if v is None or v == []:
+            m.append("0")
+        elif isinstance(v, primitives.Struct) and depth < 1:
+            m.append("(" + deep_mask(v, depth + 1) + ")")
+        elif isinstance(v, list) and v and isinstance(v[0], primitives.Struct) and depth < 1:
+            m.append("[" + deep_mask(v[0], depth + 1) + "]")
+        else:
+            m.append("1")
+    return "".join(m)
+
+
 def presence_mask(o):
     m = []
     for k, v in IC.state_items(o):
         m.append("1" if not (v is None or v == []) else "0")
     return "".join(m)
+
+
+# ---------------------------------------------------------------------------------------------------------
+# M3: child-level neighbours of structure encodings (the reader's sequencing decisions)
+# ---------------------------------------------------------------------------------------------------------
+
+COMPAT = {2: (5, 10), 5: (2, 10), 10: (2, 5), 7: (8,), 8: (7,), 3: (9,), 9: (3,)}
+
+
+def children_of(b):
+    """(header tag bytes, [child byte strings]) of a structure encoding"""
+    ln = int.from_bytes(b[4:8], "big")
+    body = b[8:8 + ln]
+    kids = []
+    off = 0
+    while off + 8 <= len(body):
+        l2 = int.from_bytes(body[off + 4:off + 8], "big")
+        tot = 8 + l2 + ((8 - l2 % 8) % 8)
+        kids.append(body[off:off + tot])
+        off += tot
+    return b[:3], kids
+
+
+def rebuild(tag3, kids):
+    body = b"".join(kids)
+    return tag3 + b"\x01" + len(body).to_bytes(4, "big") + body
+
+
+def child_variants(b, rng, limit, foreign=()):
+    """structure encodings that differ from b in the sequence of children only (each child stays well-formed)"""
+    tag3, kids = children_of(b)
+    out = []
+    n = len(kids)
+    for i in range(n):
+        out.append(("drop%d" % i, kids[:i] + kids[i + 1:]))
+        out.append(("dup%d" % i, kids[:i + 1] + kids[i:]))
+        for j in range(n):
+            if j != i:
+                k2 = kids[:i] + kids[i + 1:]
+                k2.insert(j, kids[i])
+                out.append(("move%d>%d" % (i, j), k2))
+        ty = kids[i][3]
+        for t2 in COMPAT.get(ty, ()):
+            out.append(("type%d:%d" % (i, t2), kids[:i] + [kids[i][:3] + bytes([t2]) + kids[i][4:]] + kids[i + 1:]))
+    for fk in foreign:
+        for j in range(n + 1):
+            out.append(("ins@%d" % j, kids[:j] + [fk] + kids[j:]))
+    rng.shuffle(out)
+    res, seen = [], {b}
+    for (d, ks) in out:
+        v = rebuild(tag3, ks)
+        if v not in seen:
+            seen.add(v)
+            res.append((d, v))
+        if len(res) >= limit:
+            break
+    return res
+
+
+MESSAGE_CLASSES = ("RequestMessage", "ResponseMessage")
+
+
+def schema_cases(run, names, rng, tier):
+    """[(class name, version number 10..20, description, bytes, python accepts?, python re-encode stable?)]"""
+    n_ex = 4 if tier == "quick" else 30
+    n_var = 30 if tier == "quick" else 200
+    cases = []
+    byname = {}
+    for key, (c, own) in run.lib.classes.items():
+        byname.setdefault(c.__name__, []).append(key)
+    for name in names:
+        for key in byname.get(name, []):
+            cls = run.lib.classes[key][0]
+            exs = run.lib.examples.get(key, [])
+            idx = list(range(len(exs)))
+            rng.shuffle(idx)
+            pool_children = []
+            picked = 0
+            seen = set()
+            for i in idx:
+                o = exs[i][0]
+                if picked >= n_ex:
+                    break
+                fresh = True
+                for v in IC.VERSIONS:
+                    xv = copy.deepcopy(o)
+                    set_header_version(xv, v)
+                    try:
+                        b = IC.enc(xv, v)
+                    except Exception:
+                        continue
+                    if (v, b) in seen:
+                        continue
+                    seen.add((v, b))
+                    vn = IC.VNUM[v][0] * 10 + IC.VNUM[v][1]
+                    variants = [("valid", b)]
+                    if name not in MESSAGE_CLASSES:
+                        _, kids = children_of(b)
+                        # foreign children to insert: primitives only (a structure child is read by a class that
+                        # depends on the rest of the item, e.g. the payload class on the operation)
+                        pool_children = (pool_children + [k for k in kids if k[3] != 1])[-12:]
+                        variants += child_variants(b, rng, n_var, foreign=pool_children[:4])
+                    for (d, vb) in variants:
+                        if name == "ResponseBatchItem":
+                            tags = [int.from_bytes(k[:3], "big") for k in children_of(vb)[1]]
+                            if 0x42007C in tags and 0x42005C not in tags:
+                                continue     # payload without operation: the reader does not even look for it
+                        if name == "Authentication" and not children_of(vb)[1]:
+                            continue         # needs at least one credential
+                        acc, stable = False, None
+                        try:
+                            y, left = IC.dec(cls, vb, v)
+                            acc = (left == 0)
+                            if acc:
+                                IC.repair_text_padding(y)
+                                stable = (IC.enc(y, v) == vb)
+                        except Exception:
+                            acc = False
+                        cases.append((name, vn, d, vb, acc, stable))
+                    fresh = False
+                if not fresh:
+                    picked += 1
+    return cases
 
 
 # ---------------------------------------------------------------------------------------------------------
